@@ -61,6 +61,8 @@ pub(crate) struct ZXController<H: Host> {
     // so we need to store the internal errors manually. For sake of simplicity,
     // only last error is saved
     last_emulation_error: Option<Error>,
+    #[cfg(rustzx_verif)]
+    pub verif_total_frames: u64,
 }
 
 impl<H: Host> ZXController<H> {
@@ -125,6 +127,8 @@ impl<H: Host> ZXController<H> {
             screen_bank,
             current_port_7ffd: 0,
             last_emulation_error: None,
+            #[cfg(rustzx_verif)]
+            verif_total_frames: 0,
         };
 
         #[cfg(feature = "embedded-roms")]
@@ -307,6 +311,10 @@ impl<H: Host> ZXController<H> {
     /// Starts a new frame
     fn new_frame(&mut self) {
         self.frame_clocks -= self.machine.specs().clocks_frame;
+        #[cfg(rustzx_verif)]
+        {
+            self.verif_total_frames += 1;
+        }
         self.screen.new_frame();
         #[cfg(feature = "precise-border")]
         self.border.new_frame();
@@ -409,6 +417,38 @@ impl<H: Host> ZXController<H> {
                 }
             }
         }
+    }
+}
+
+#[cfg(rustzx_verif)]
+impl<H: Host> ZXController<H> {
+    /// Verification hook: (last accepted 7FFD value, paging still enabled, screen bank,
+    /// memory map as (is_ram, page) per 16K window)
+    pub fn verif_paging(&self) -> (u8, bool, u8, [(bool, u8); 4]) {
+        let mut map = [(false, 0u8); 4];
+        for (block, entry) in map.iter_mut().enumerate() {
+            *entry = match self.memory.get_bank_type(block) {
+                Page::Ram(page) => (true, page),
+                Page::Rom(page) => (false, page),
+            };
+        }
+        (
+            self.current_port_7ffd,
+            self.paging_enabled,
+            self.screen_bank,
+            map,
+        )
+    }
+
+    /// Verification hook: place the frame clock at `clocks`, keeping the screen
+    /// renderer coherent (forward moves render, backward moves only move the cursor)
+    pub fn verif_set_frame_clocks(&mut self, clocks: usize) {
+        if clocks >= self.frame_clocks {
+            self.screen.process_clocks(clocks);
+        } else {
+            self.screen.verif_resync(clocks);
+        }
+        self.frame_clocks = clocks;
     }
 }
 
